@@ -74,7 +74,9 @@ def build_spec(seed: int, tier: str, enum_index: int | None = None, doc_seed: in
         # with content, with or without --overwrite: a rejected document must leave it untouched either way
         "precreate": a.choice([None, None, None, None, "with-overwrite", "with-overwrite", "without-overwrite"]),
         # post-hooks are real subprocesses: none (usual), succeeding, missing from PATH (warning), failing (error-level diagnostic)
-        "post_hooks": a.choice([[], [], [], [], [], ["true"], ["verif_missing_cmd"], ["false"], ["verif_missing_cmd", "false"], ["false", "verif_missing_cmd"], ["true", "false"]]),
+        "post_hooks": a.choice([[], [], [], [], [], ["true"], ["verif_missing_cmd"], ["false"], ["verif_missing_cmd", "false"], ["false", "verif_missing_cmd"], ["true", "false"],
+                                # a failing hook whose complaint is not UTF-8 (a formatter quoting a binary file, a tool in another locale)
+                                ["printf 'bad \\377\\376 bytes' >&2; false"], ["printf '\\303' ; false"]]),
         "yaml_native": a.choice([None, None, None, 0, 1, 2]),
     }
     # --file-encoding: the default, encodings that cannot represent every character of a document, one with a BOM, and a
